@@ -424,7 +424,15 @@ func (fg *FunctionGenerator) GenerateCustom(ast parser2.AST, gc funcGen.Generato
 		}
 		l := tc.GetLine()
 		return func(st funcGen.Stack[Value], cs []Value) (Value, error) {
-			tryVal, tryErr := tryFunc(st, cs)
+			tryVal, tryErr := func() (v Value, err error) {
+				// also a panic is to be handled by the catch expression
+				defer func() {
+					if rec := recover(); rec != nil {
+						err = parser2.AnyToError(rec)
+					}
+				}()
+				return tryFunc(st, cs)
+			}()
 			if tryErr == nil {
 				return tryVal, nil
 			}
